@@ -101,6 +101,7 @@ type c10CoordH struct {
 	// digests of the hub's custom-module stores right before / after the block that carries the MsgRecvPacket
 	dBefore, dAfter string
 	nSeq            int
+	lastTx          *abci.ExecTxResult // result of the last transaction `deliver` put into a hub block
 }
 
 const c10CoordGas = 60_000_000
@@ -229,7 +230,7 @@ func (c *c10CoordH) deliver(msg sdk.Msg) (err error) {
 	defer c.refresh()
 	signers, _, serr := c.hubApp().AppCodec().GetMsgV1Signers(msg)
 	if serr == nil && len(signers) == 1 && bytes.Equal(signers[0], c.hub.SenderAccount.GetAddress()) {
-		_, err = c.hub.SendMsgs(msg)
+		c.lastTx, err = c.hub.SendMsgs(msg)
 		if err != nil {
 			c10CoordDebug("tx of %T failed: %v", msg, err)
 			if strings.Contains(err.Error(), "panic") {
@@ -313,8 +314,15 @@ func (c *c10CoordH) exec(line string) (res string, rc *c10Recv) {
 			hubApp.RollappKeeper.SetRollapp(h.e.f.Ctx, ra)
 		}
 		return res, rc
-	case "setgi", "force", "premd", "send", "recv":
+	case "setgi", "force", "premd", "recv":
 		return h.exec(line)
+	case "send":
+		c.lastTx = nil
+		res, rc = h.exec(line) // MsgTransfer in a transaction of the hub's sender
+		if ch, ok := h.chanByTok(f[1]); ok && res == "ok" && c.lastTx != nil {
+			c.relayOut(c.paths[ch.id], c.lastTx)
+		}
+		return res, rc
 	case "tick":
 		dt := time.Duration(atou(m["dt"])) * time.Second
 		c.coord.IncrementTimeBy(dt)
@@ -408,6 +416,22 @@ func (c *c10CoordH) exec(line string) (res string, rc *c10Recv) {
 		return "ok", nil
 	}
 	return "bad-op", nil
+}
+
+// relayOut: a transfer the hub let out is received by the rollapp chain (MsgRecvPacket with a proof of the hub's
+// commitment) and its acknowledgement is brought back to the hub (MsgAcknowledgement with a proof from the rollapp
+// chain).  The outcome on the rollapp side is not part of the observation.
+func (c *c10CoordH) relayOut(p *ibctesting.Path, tx *abci.ExecTxResult) {
+	packet, err := ibctesting.ParsePacketFromEvents(tx.Events)
+	c.must("packet of the hub's MsgTransfer", err)
+	a, b := p.EndpointA, p.EndpointB
+	c.must("rollapp UpdateClient", b.UpdateClient())
+	res, err := b.RecvPacketWithResult(packet) // updates the hub's client afterwards
+	c.must("MsgRecvPacket on the rollapp chain", err)
+	ack, err := ibctesting.ParseAckFromEvents(res.Events)
+	c.must("acknowledgement of the rollapp chain", err)
+	c.must("MsgAcknowledgement on the hub", a.AcknowledgePacket(packet, ack))
+	c10CoordDebug("outgoing packet %d on %s relayed, acknowledgement %s", packet.Sequence, a.ChannelID, ack)
 }
 
 func (c *c10CoordH) nHubChans() int {
@@ -577,6 +601,36 @@ func c10CoordDirected() []c10CoordTrace {
 		return fmt.Sprintf("recv %s ph=%d kind=gb %s md=1/1:0,11:18/1/1 mdshape=ok tr=1/30/1/0/1", ch, ph, gi2)
 	}
 	ft := func(ch string, ph int) string { return fmt.Sprintf("recv %s ph=%d kind=ft tr=1/5/1/1/1", ch, ph) }
+	// a channel over the canonical client that the ante hook never saw (MsgChannelOpenAck nested in authz.MsgExec /
+	// handshake started from the rollapp): it opens, no canonical channel is recorded, nothing flows on it in
+	// either direction - before a canonical channel exists, before the handshake on that one, and after
+	second := func(via string) []string {
+		return []string{reset,
+			"create r0 " + gi2,
+			"seq r0",
+			"canon r0",
+			"chopen r0 via=" + via,
+			"send c0",
+			ft("c0", 40),
+			hs("c0", 50),
+			"chopen r0 via=ack",
+			"send c1",
+			ft("c1", 70),
+			hs("c0", 80),
+			"send c0",
+			hs("c1", 90),
+			"send c1",
+			"send c0",
+			ft("c0", 100),
+			hs("c0", 110),
+			ft("c1", 120),
+			hs("c1", 130),
+			"chopen r0 via=ack",
+			"chopen r0 via=" + via,
+			"send c3",
+			ft("c3", 160),
+		}
+	}
 	return []c10CoordTrace{
 		{hits: []string{"coord/handshake-ack", "coord/ics20-before-handshake-out", "coord/ics20-before-handshake-in", "coord/genesis-bridge-real-proof",
 			"coord/ics20-after-out", "coord/ics20-after-in", "coord/repeated-handshake"},
@@ -587,10 +641,38 @@ func c10CoordDirected() []c10CoordTrace {
 				"chopen r0 via=ack",
 				"send c0",
 				ft("c0", 40),
+				strings.Replace(hs("c0", 45), "kind=gb ck=1", "kind=gb ck=2", 1), // another genesis checksum: the bridge stays closed
+				"tick dt=60",
+				"send c0",
 				hs("c0", 50),
 				"send c0",
 				ft("c0", 60),
 				hs("c0", 70),
+				"chopen r0 via=ack", // refused by the ante hook: channel-1 stays in INIT on the hub, the identifier is spent
+				"chopen r0 via=try",
+				"send c2",
+				ft("c2", 100),
+				"send c0",
+				ft("c0", 110),
 			}},
+		{hits: []string{"coord/handshake-nested", "coord/handshake-ack", "coord/ics20-before-handshake-out", "coord/ics20-before-handshake-in",
+			"coord/genesis-bridge-real-proof", "coord/ics20-after-out", "coord/ics20-after-in", "coord/repeated-handshake"},
+			lines: second("nested")},
+		{hits: []string{"coord/handshake-try", "coord/handshake-ack", "coord/ics20-before-handshake-out", "coord/ics20-before-handshake-in",
+			"coord/genesis-bridge-real-proof", "coord/ics20-after-out", "coord/ics20-after-in", "coord/repeated-handshake"},
+			lines: second("try")},
+	}
+}
+
+// TestC10CoordDump (debugging aid): prints the directed coordinator traces as a replay file
+func TestC10CoordDump(t *testing.T) {
+	if p := os.Getenv("C10_COORD_DUMP"); p != "" {
+		var sb strings.Builder
+		for _, d := range c10CoordDirected() {
+			sb.WriteString(strings.Join(d.lines, "\n") + "\n")
+		}
+		if err := os.WriteFile(p, []byte(sb.String()), 0o644); err != nil {
+			t.Fatal(err)
+		}
 	}
 }
